@@ -51,8 +51,10 @@ type fdesc struct {
 	ino    *inode
 	flags  int
 	off    int64
-	dirPos int
-	refs   int
+	dirPos int    // number of entries emitted so far (d_off)
+	dirCur string // last name emitted: the stream resumes after it, so an
+	// entry that is not touched during the listing is returned exactly once
+	refs int
 }
 
 // Fault is one injected fault.
@@ -560,13 +562,27 @@ func dirNames(in *inode) []string {
 	return append([]string{".", ".."}, names...)
 }
 
-// readDirent fills buf with linux_dirent64 records.
+// readDirent fills buf with linux_dirent64 records. The directory stream is a
+// cursor over the sorted names (".", ".." first): every call resumes after the
+// last name it emitted, reading the live directory.
 func (k *Kernel) readDirent(f *fdesc, buf []byte) int {
-	names := dirNames(f.ino)
+	all := dirNames(f.ino)
+	var names []string
+	switch {
+	case f.dirPos == 0:
+		names = all
+	case f.dirPos == 1:
+		names = all[1:]
+	default:
+		for _, n := range all[2:] {
+			if f.dirPos == 2 || n > f.dirCur {
+				names = append(names, n)
+			}
+		}
+	}
 	n := 0
 	count := 0
-	for f.dirPos < len(names) {
-		name := names[f.dirPos]
+	for _, name := range names {
 		reclen := (19 + len(name) + 1 + 7) &^ 7
 		if n+reclen > len(buf) {
 			break
@@ -602,6 +618,9 @@ func (k *Kernel) readDirent(f *fdesc, buf []byte) int {
 		}
 		n += reclen
 		f.dirPos++
+		if f.dirPos > 2 {
+			f.dirCur = name
+		}
 		count++
 	}
 	return n
